@@ -682,6 +682,9 @@ func runC11(ctx *core.Ctx) {
 	// the defaults inside the unicity keys (c11_keys.go)
 	c11KeysStreams(ctx)
 
+	// the three stages composed (c11_pipeline.go)
+	c11PipelineStream(ctx)
+
 	// direct oracle on whole loads
 	c11Oracle(ctx)
 }
